@@ -29,9 +29,66 @@ PROPS = {
     ),
 }
 
+ENGINE_FILES = ["gen/EngineGen.v", "proofs/AnchorsEngine.v", "proofs/EngineProofs.v", "proofs/EngineTheorems.v", "proofs/EngineExamples.v"]
+ENGINE_TRUST = COMMON_TRUST + [
+    "abstract engine coq/model/EngineAbs.v (hand-written control skeleton of ExecuteWithContext / FetchMatchingRules / RuleEntry entry checks), "
+    "tied to the source by the extracted comparison anchors (EngineGen.v), the site inventories (SitesGen.v) and the trace correspondence",
+    "mini rule language coq/model/MiniEngine.v used to run the abstract engine against the real one (integer counters only)",
+]
+ENGINE_ASSUME = [
+    "conditions do not change Retracted/Deleted flags; an action's Retract/Complete effects are applied when its list ends (they commute with the rest of the list)",
+    "one goroutine per knowledge-base instance; cancellation is represented by the index of the first ctx.Err() call that observes it",
+]
+
+def engine_prop(pid, sites, theorem, expl):
+    return dict(
+        proof_files=ENGINE_FILES + sites + ["props/%s.v" % pid],
+        props_files=["props/%s.v" % pid],
+        harness=pid,
+        theorems=[theorem],
+        trusted=ENGINE_TRUST,
+        assumptions=ENGINE_ASSUME,
+        explanation=expl,
+    )
+
+PROPS["C03"] = engine_prop("C03", [], "C03",
+    "C03 is proved for every condition/action semantics, salience assignment, budget, cancellation point and map iteration order over the abstract "
+    "engine whose salience comparison is extracted from GruleEngine.go; the mini-engine harness replays generated rule sets on the real engine and "
+    "on the model (listener trace, outcome, facts) and checks maximal-salience firing on the implementation's own trace.")
+PROPS["C06"] = engine_prop("C06", ["proofs/AnchorsSitesNotify.v"], "C06",
+    "termination within MaxCycle+1 passes, firing bound, exact cycle-limit condition and the listener protocol are proved over the abstract engine "
+    "(budget comparison and notification numbers extracted from the source); budgets around the natural run length are replayed on the real engine.")
+PROPS["C10"] = engine_prop("C10", ["proofs/AnchorsSitesFlags.v"], "C10",
+    "Retract/Complete control effects proved over the abstract engine (retraction flags are a function of the Retract calls made so far); rule sets "
+    "retracting self/other/unknown names and completing at any action position are replayed on the real engine.")
+PROPS["C11"] = dict(
+    proof_files=ENGINE_FILES + ["props/C11.v"], props_files=["props/C11.v"], harness="C11", theorems=["C11"],
+    trusted=ENGINE_TRUST, assumptions=ENGINE_ASSUME,
+    explanation="C11 (exact set, no duplicates, non-increasing salience for any stable-sort comparison satisfying the extracted anchor, no action parameter) "
+                "is proved over the abstract FetchMatchingRules; generated rule sets are fetched on the real engine, also after an Execute on the same instance.")
+PROPS["C15"] = engine_prop("C15", ["proofs/AnchorsSitesCtx.v"], "C15",
+    "for every index of the first ctx.Err() call that sees the cancellation: no action list starts after a check saw it, a pre-cancelled context fires "
+    "nothing, nil is returned only if no check (including the exit-path check) saw it; every cancellation position of generated runs is replayed on the "
+    "real engine through a call-counting context.")
+
 NOT_APPLICABLE = {}
 
+def _eng_text(what):
+    return dict(
+        text="Machine-checked proof (Coq 8.16.1) over an abstract model of the engine loop, for every condition/action semantics, rule set, budget, "
+             "cancellation point and map iteration order: " + what + " Tied to the code by comparison anchors and site inventories regenerated from "
+             "the source on every run and by replaying generated rule sets on the real engine and on the model (listener trace, outcome, final facts).",
+        note="Trust: Coq kernel; hand-written control skeleton EngineAbs.v (validated by the trace correspondence, not verified against Go); translator; "
+             "harness; conditions are assumed not to change rule flags; single goroutine per instance. No axioms (closed under the global context).",
+        technique="Rocq/Coq proof over an abstract engine automaton + source-extracted anchors + trace correspondence (vm_compute)",
+    )
+
 MANIFEST_TEXT = {
+    "C03": _eng_text("at most one firing per cycle, of a candidate with maximal salience; each rule evaluated at most once per cycle."),
+    "C06": _eng_text("termination within MaxCycle+1 passes, at most MaxCycle firings, cycle-limit error exactly when one more firing is needed, nil only at quiescence/Complete, consecutive cycle numbers and a faithful evaluation/execution protocol."),
+    "C10": _eng_text("a retracted name is neither evaluated nor fired again in the call, all other active rules keep being evaluated, Complete ends the run after the whole action list."),
+    "C11": _eng_text("FetchMatchingRules returns exactly the non-removed rules whose condition is true, once each, in non-increasing salience order, and cannot execute an action."),
+    "C15": _eng_text("no action list starts once a ctx.Err() check has seen the cancellation, a pre-cancelled context fires nothing, nil is never returned when a check saw the cancellation."),
     "C19": dict(
         text="Machine-checked proof (Coq 8.16.1) that the six comparison functions, as regenerated from pkg/reflectmath.go on every run, "
              "are mutually consistent (trichotomy, <=/>=/!= derived, mirrored under swap) and depend on denoted values only, for all "
